@@ -352,6 +352,23 @@ type condEdge struct {
 	cond  ssa.Value
 	taken bool // the branch on which the dominated code runs
 	ifIn  *ssa.If
+	subst map[ssa.Value]ssa.Value // for conditions imported from a helper predicate: callee parameter -> call argument
+}
+
+// asCmp interprets the condition as a comparison, with helper parameters replaced by the caller's arguments.
+func (ce condEdge) asCmp() (cmp, bool) {
+	cm, ok := asCmp(ce.cond, ce.taken)
+	if ok && ce.subst != nil {
+		cm.x, cm.y = ce.sub(cm.x), ce.sub(cm.y)
+	}
+	return cm, ok
+}
+
+func (ce condEdge) sub(v ssa.Value) ssa.Value {
+	if r, ok := ce.subst[v]; ok {
+		return r
+	}
+	return v
 }
 
 // edgeDominated reports whether block b is only reachable through the
@@ -388,7 +405,16 @@ func dominatingConds(b *ssa.BasicBlock) []condEdge {
 		ce := out[i]
 		if call, ok := ce.cond.(*ssa.Call); ok && ce.taken {
 			if f := call.Call.StaticCallee(); f != nil && isModulePredicate(f) {
-				out = append(out, impliedWhenTrue(f, 0)...)
+				sub := map[ssa.Value]ssa.Value{}
+				for i, p := range f.Params {
+					if i < len(call.Call.Args) {
+						sub[p] = call.Call.Args[i]
+					}
+				}
+				for _, imp := range impliedWhenTrue(f, 0) {
+					imp.subst = sub
+					out = append(out, imp)
+				}
 			}
 		}
 	}
@@ -497,9 +523,9 @@ func dominatingCondsRaw(b *ssa.BasicBlock) []condEdge {
 			continue
 		}
 		if edgeDominated(d, 0, b) {
-			out = append(out, condEdge{ifi.Cond, true, ifi})
+			out = append(out, condEdge{cond: ifi.Cond, taken: true, ifIn: ifi})
 		} else if edgeDominated(d, 1, b) {
-			out = append(out, condEdge{ifi.Cond, false, ifi})
+			out = append(out, condEdge{cond: ifi.Cond, taken: false, ifIn: ifi})
 		}
 	}
 	return out
@@ -589,7 +615,7 @@ func constBool(v ssa.Value) (bool, bool) {
 // control reaches instruction at?  same: value identity predicate.
 func nilKnowledge(at ssa.Instruction, same func(ssa.Value) bool) (isNil, nonNil bool) {
 	for _, ce := range dominatingConds(at.Block()) {
-		cm, ok := asCmp(ce.cond, ce.taken)
+		cm, ok := ce.asCmp()
 		if !ok {
 			continue
 		}
@@ -1207,7 +1233,7 @@ func flipTok(t token.Token) token.Token {
 func intFacts(at ssa.Instruction, same func(ssa.Value) bool) []intFact {
 	var out []intFact
 	for _, ce := range dominatingConds(at.Block()) {
-		cm, ok := asCmp(ce.cond, ce.taken)
+		cm, ok := ce.asCmp()
 		if !ok {
 			continue
 		}
@@ -1276,7 +1302,7 @@ func boolFacts(at ssa.Instruction, same func(ssa.Value) bool) (isTrue, isFalse b
 			}
 			break
 		}
-		if same(v) {
+		if same(v) || same(ce.sub(v)) {
 			if taken {
 				isTrue = true
 			} else {
